@@ -205,6 +205,28 @@ func (o *Observer) feed(op *operation.AnchoredOperation, opID int, refold bool) 
 	if w.CheckFold && !refold {
 		o.compare(exp, next, err, f)
 	}
+	if n := w.Plan.Swarm.Soak; n > 0 && !refold && op.Type != operation.TypeCreate {
+		// soak: the same operation against the same previous state through the same applier, over and over - the outcome is a
+		// function of (operation, state, anchoring data) alone, whatever the component has been through before
+		first := "error"
+		if err == nil {
+			first = snapshotRM(next)
+		}
+		for i := 0; i < n; i++ {
+			again, aerr := w.Applier.Apply(op, prev)
+			got := "error"
+			if aerr == nil {
+				got = snapshotRM(again)
+			}
+			if got != first {
+				w.violate(w.Prop+"/outcome-depends-on-history-of-component", string(op.Type), "%s: application #%d of op%d (%s) to the same state by the same applier gives %s, the first gave %s",
+					o.name, i+2, opID, op.Type, diffHint(first, got), clip([]byte(first)))
+				break
+			}
+		}
+		w.T.Count("soak_applications", uint64(n))
+		w.T.Probe("soak")
+	}
 	if w.CheckIntake && !refold && exp.Rec.Via == "intake" && exp.Rec.Built.Honest {
 		// the anchored (canonical) bytes and the original request bytes apply to the same state
 		orig := *op
